@@ -8,10 +8,10 @@ use std::rc::Rc;
 use std::sync::Arc;
 
 use trustfall_core::interpreter::{
-    Adapter, AsVertex, CandidateValue, ContextIterator, ContextOutcomeIterator, EdgeInfo, ResolveEdgeInfo,
-    ResolveInfo, VertexInfo, VertexIterator,
+    Adapter, AsVertex, CandidateValue, ContextIterator, ContextOutcomeIterator, EdgeInfo, NeighborInfo,
+    ResolveEdgeInfo, ResolveInfo, VertexInfo, VertexIterator,
 };
-use trustfall_core::ir::{EdgeParameters, FieldValue};
+use trustfall_core::ir::{EdgeParameters, Eid, FieldValue};
 
 use crate::adapter::{GraphAdapter, V};
 use crate::candmodel::{member, variant};
@@ -29,12 +29,18 @@ pub struct PruneStats {
     pub pruned_by_mandatory_edge: u64,
     pub candidates_considered: u64,
     pub undecidable_memberships: u64,
+    /// look-ahead: hints obtained for a vertex several hops ahead (through ANY kind of edge), applied when
+    /// that edge is finally resolved - the way a join-pushing / prefetching adapter would use them
+    pub lookahead_plans: u64,
+    pub pruned_by_lookahead: u64,
 }
 
 #[derive(Clone)]
 pub struct PruningAdapter {
     pub inner: GraphAdapter,
     pub stats: Rc<RefCell<PruneStats>>,
+    /// per edge id: the `NeighborInfo`s of its destination obtained by looking ahead from earlier resolvers
+    pub plans: Rc<RefCell<BTreeMap<Eid, Vec<NeighborInfo>>>>,
 }
 
 fn prop_val(ds: &Dataset, v: usize, name: &str) -> Val {
@@ -54,7 +60,38 @@ fn names_for(m: &SchemaModel, ds: &Dataset, v: usize) -> (Vec<String>, Vec<Strin
 
 impl PruningAdapter {
     pub fn new(inner: GraphAdapter) -> Self {
-        PruningAdapter { inner, stats: Rc::new(RefCell::new(PruneStats::default())) }
+        PruningAdapter { inner, stats: Rc::new(RefCell::new(PruneStats::default())), plans: Rc::new(RefCell::new(BTreeMap::new())) }
+    }
+
+    /// Walk every not-yet-resolved edge reachable from `info` (any kind: plain, @optional, @fold, @recurse;
+    /// up to 3 hops) and remember the hint object of each destination under the edge's id.
+    fn plan_lookahead(&self, info: &dyn VertexInfo, depth: usize) {
+        if depth >= 3 {
+            return;
+        }
+        let mut edge_names: Vec<String> = vec![];
+        for t in &self.inner.m.types {
+            for e in &t.edges {
+                if !edge_names.contains(&e.name) {
+                    edge_names.push(e.name.clone());
+                }
+            }
+        }
+        for e in &edge_names {
+            let infos: Vec<EdgeInfo> = info.edges_with_name(e).collect();
+            for ei in infos {
+                let dest = ei.destination().clone();
+                {
+                    let mut plans = self.plans.borrow_mut();
+                    let slot = plans.entry(ei.eid()).or_default();
+                    if slot.len() < 4 {
+                        slot.push(dest.clone());
+                        self.stats.borrow_mut().lookahead_plans += 1;
+                    }
+                }
+                self.plan_lookahead(&dest, depth + 1);
+            }
+        }
     }
 
     /// does vertex `v` satisfy the *static* hints of `info` (properties and, recursively, mandatory edges)?
@@ -113,6 +150,7 @@ impl Adapter<'static> for PruningAdapter {
         resolve_info: &ResolveInfo,
     ) -> VertexIterator<'static, Self::Vertex> {
         let inner = self.inner.resolve_starting_vertices(edge_name, parameters, resolve_info);
+        self.plan_lookahead(resolve_info, 0);
         let info = resolve_info.clone();
         let m = self.inner.m.clone();
         let ds = self.inner.ds.clone();
@@ -142,6 +180,8 @@ impl Adapter<'static> for PruningAdapter {
         resolve_info: &ResolveEdgeInfo,
     ) -> ContextOutcomeIterator<'static, Vx, VertexIterator<'static, Self::Vertex>> {
         let dest = resolve_info.destination();
+        self.plan_lookahead(&dest, 0);
+        let planned: Vec<NeighborInfo> = self.plans.borrow().get(&resolve_info.eid()).cloned().unwrap_or_default();
         let m = self.inner.m.clone();
         let ds = self.inner.ds.clone();
         let stats = self.stats.clone();
@@ -192,6 +232,7 @@ impl Adapter<'static> for PruningAdapter {
                     let adj: Vec<usize> = ds.vertices[v.0].edges.get(name.as_ref()).cloned().unwrap_or_default();
                     let (ds2, m2, stats2, params2, dest2) =
                         (ds.clone(), m.clone(), stats.clone(), params.clone(), dest.clone());
+                    let planned2 = planned.clone();
                     let ds3 = ds.clone();
                     Box::new(
                         adj.into_iter()
@@ -210,7 +251,24 @@ impl Adapter<'static> for PruningAdapter {
                                         None => stats2.borrow_mut().undecidable_memberships += 1,
                                     }
                                 }
-                                PruningAdapter::satisfies_static(&m2, &ds2, &stats2, *n, &dest2, 0)
+                                if !PruningAdapter::satisfies_static(&m2, &ds2, &stats2, *n, &dest2, 0) {
+                                    return false;
+                                }
+                                for info in &planned2 {
+                                    let before = {
+                                        let s = stats2.borrow();
+                                        s.pruned_by_static + s.pruned_by_mandatory_edge
+                                    };
+                                    if !PruningAdapter::satisfies_static(&m2, &ds2, &stats2, *n, info, 0) {
+                                        // re-attribute: this vertex was excluded by a hint obtained through look-ahead
+                                        let mut s = stats2.borrow_mut();
+                                        let after = s.pruned_by_static + s.pruned_by_mandatory_edge;
+                                        let _ = (before, after);
+                                        s.pruned_by_lookahead += 1;
+                                        return false;
+                                    }
+                                }
+                                true
                             })
                             .map(V),
                     )
